@@ -1,6 +1,7 @@
 package main
 
 import (
+	"encoding/json"
 	"fmt"
 	"os"
 	"runtime"
@@ -25,6 +26,19 @@ func main() {
 			}
 		}
 		os.Exit(runCheck(os.Args[2], tier))
+	case "bmc":
+		w, err := LoadWorld("/repo", "/verif/harness")
+		if err != nil {
+			fmt.Fprintln(os.Stderr, "load error:", err)
+			os.Exit(2)
+		}
+		bs := BMCSpec{Name: os.Args[3], Pkg: os.Args[2], Fn: os.Args[3], Init: []string{"util", "store", "compress", "cache"}}
+		if len(os.Args) > 4 {
+			bs.Init = strings.Split(os.Args[4], ",")
+		}
+		br := w.RunBMC("DBG", bs, "quick", map[string]KnownFinding{})
+		b, _ := json.MarshalIndent(br, "", " ")
+		fmt.Println(string(b))
 	case "run":
 		w, err := LoadWorld("/repo", "/verif/harness")
 		if err != nil {
